@@ -169,7 +169,10 @@ class MasterTruth:
         import fnmatch
         if aname not in self.apps:
             return None
-        own = self.prio.get(aname)
+        return self.prio.get(aname)
+
+    def resolve_priority(self, aname, own):
+        import fnmatch
         if own is not None and int(own) != -1:
             return int(own)
         key = aname[:aname.find('.')]
@@ -491,9 +494,12 @@ class World:
             if not add:
                 return
             truth.apps[name] = manifest
-        # (the priority is re-read every time the master loads the instance)
-        truth.prio[name] = manifest.get('priority')
         truth.app_alloc[name] = truth.assign(name)
+        # (the priority is resolved every time the master loads the instance
+        # - its own, else the matching assignment's as of now - and stays
+        # what it was until the next load)
+        truth.prio[name] = truth.resolve_priority(name,
+                                                  manifest.get('priority'))
 
     def _truth_server(self, name, adjust=True):
         """The server record as the harness reads it (what Loader.load_server
@@ -902,7 +908,16 @@ class World:
         self.dirty_since_cycle = True
 
     def op_allocations(self, op):
-        masterapi.update_allocations(self.admin, op['allocations'])
+        # an allocation is identified by partition and name: a list with two
+        # records of one identity is not something the admin API can produce
+        seen = set()
+        allocations = []
+        for alloc in op['allocations']:
+            key = (alloc.get('partition'), alloc['name'])
+            if key not in seen:
+                seen.add(key)
+                allocations.append(alloc)
+        masterapi.update_allocations(self.admin, allocations)
         self.faults['allocations_changed'] += 1
         self.dirty_since_cycle = True
 
@@ -2473,12 +2488,18 @@ class Generator:
             if hit:
                 break
         if hit is not None:
-            others = [p for p in parts if p != hit.get('partition')]
+            # (an allocation is identified by partition and name: never
+            # produce two records of the same identity)
+            others = [p for p in parts if p != hit.get('partition') and
+                      not any(a is not hit and a['name'] == hit['name'] and
+                              a.get('partition') == p for a in allocs)]
+            if not others:
+                return None
             hit['partition'] = self.rng.choice(others)
         else:
             others = [p for p in parts if p != '_default']
             allocs.append({
-                'name': 'tm/mv%d' % self.rng.randint(0, 9),
+                'name': 'tm/mv%d' % len(allocs),
                 'partition': self.rng.choice(others),
                 'memory': '0M', 'cpu': '0%', 'disk': '0M', 'rank': 100,
                 'rank_adjustment': 0, 'max_utilization': None, 'traits': [],
